@@ -458,3 +458,86 @@ func UnlockFaultThenRelock(L time.Duration, replyLost bool) (out Outcome) {
 	lb.Unlock()
 	return out
 }
+
+// CancelledCtxTenure: the lock is acquired through LockWithCtx / TryLock with a context that ends right after
+// the acquisition returned (the usual `ctx, cancel := ...; defer cancel()` of a caller); the holder's storage
+// refuses calls whose context is done, as a network backend does. The holder stays 2.5 leases; a Locker of
+// another provider spinning TryLock must never get the lock.
+func CancelledCtxTenure(L time.Duration, try bool) (out Outcome) {
+	stop := canary()
+	defer func() { out.Stall = stop() }()
+	inner := inmem.New()
+	tA := New(inner)
+	tA.HonourCtx = true
+	pa := dist.NewKvsLockProvider(tA, "/lt/")
+	pb := dist.NewKvsLockProvider(inner, "/lt/")
+	for _, p := range []dist.LockProvider{pa, pb} {
+		dist.VerifSetLeaseTTL(p, L)
+		defer p.Shutdown()
+	}
+	la, lb := pa.NewLocker("x"), pb.NewLocker("x")
+	ctx, cancel := context.WithCancel(context.Background())
+	if try {
+		if !la.TryLock(ctx) {
+			cancel()
+			return Outcome{Skipped: "TryLock on a free lock failed"}
+		}
+	} else if err := la.LockWithCtx(ctx); err != nil {
+		cancel()
+		return Outcome{Skipped: "LockWithCtx on a free lock failed: " + err.Error()}
+	}
+	cancel()
+	t0 := time.Now()
+	for time.Since(t0) < 5*L/2 {
+		if lb.TryLock(context.Background()) {
+			out.Sig = "two-holders-after-the-acquisition-context-ended"
+			out.What = fmt.Sprintf("lease %v: the lock was acquired with a context that was cancelled right after the acquisition returned (TryLock: %v); %v into the tenure another provider's TryLock succeeded although the holder has not unlocked; storage calls of the holder: %v", L, try, time.Since(t0).Round(time.Millisecond), tA.Events())
+			out.TimeBound = true
+			lb.Unlock()
+			break
+		}
+		time.Sleep(L / 10)
+	}
+	la.Unlock()
+	return out
+}
+
+// TwoLocksOneSlowStorage (wants a process without other timer traffic): two locks x and y are taken at the same
+// moment in one process; a far timer is pending; a short job keeps the only timer worker busy over the instant
+// both first renewals become due; the storage of x answers its renewal only after 0.75 leases (x's own lease is
+// not judged), the storage of y answers at once. y's holder stays for 3 leases; a Locker of another provider
+// spinning TryLock on y must never get it.
+func TwoLocksOneSlowStorage(L time.Duration) (out Outcome) {
+	stop := canary()
+	defer func() { out.Stall = stop() }()
+	inner := inmem.New()
+	tX := New(inner)
+	tX.CasSlowAfter = 3 * L / 4
+	px := dist.NewKvsLockProvider(tX, "/lt/")
+	py := dist.NewKvsLockProvider(inner, "/lt/")
+	pb := dist.NewKvsLockProvider(inner, "/lt/")
+	for _, p := range []dist.LockProvider{px, py, pb} {
+		dist.VerifSetLeaseTTL(p, L)
+		defer p.Shutdown()
+	}
+	far := timeout.Call(func() {}, 20*time.Second)
+	defer far.Cancel()
+	lx, ly, lb := px.NewLocker("x"), py.NewLocker("y"), pb.NewLocker("y")
+	lx.Lock()
+	ly.Lock()
+	t0 := time.Now()
+	timeout.Call(func() { time.Sleep(10 * time.Millisecond) }, L/2-5*time.Millisecond)
+	for time.Since(t0) < 3*L {
+		if lb.TryLock(context.Background()) {
+			out.Sig = "two-holders-beside-a-slow-renewal-of-another-lock"
+			out.What = fmt.Sprintf("lease %v: locks x and y were taken together in one process (a far timer pending, the timer worker busy for 10 ms over the instant both first renewals became due); the storage of x answered its renewal after %v, the storage of y at once; %v into the tenure another provider's TryLock on y succeeded although y's holder has not unlocked", L, tX.CasSlowAfter, time.Since(t0).Round(time.Millisecond))
+			out.TimeBound = true
+			lb.Unlock()
+			break
+		}
+		time.Sleep(L / 10)
+	}
+	ly.Unlock()
+	lx.Unlock()
+	return out
+}
